@@ -46,7 +46,7 @@ fn all_const_cases() -> Vec<ConstCase> {
     for op in ["-", "~", "!"] { for &a in &B_INT {
         v.push(ConstCase { text: format!("({op}({}))", lit_int(a)), float_result: false, expect: m1_unop(op, false, &Val::I(a)), truthiness_only: false, edge: a == i32::MIN || a == 0 });
     }}
-    for op in ["-", "sin", "cos", "sqrt"] { for &a in &fl {
+    for op in ["-", "sin", "cos", "sqrt", "tan", "asin", "acos", "atan"] { for &a in &fl {
         let text = if op == "-" { format!("(-{})", lit_float(a)) } else { format!("{op}({})", lit_float(a)) };
         v.push(ConstCase { text, float_result: true, expect: m1_unop(op, true, &Val::F(a)), truthiness_only: false, edge: !a.is_finite() || a == 0.0 || a < 0.0 });
     }}
